@@ -4,6 +4,7 @@ import LP.Driver.FSI
 import LP.Driver.FSet
 import LP.Driver.Containers
 import LP.Driver.Poly
+import LP.Driver.Refs
 import Std.Data.HashMap
 open LP LP.Driver
 
@@ -31,6 +32,7 @@ def checkLine (line : String) : String × String × Verdict :=
         | "div" => checkDiv op args r
         | "udiv" => checkUDiv op args r
         | "ord" => checkOrd op args r
+        | "refs" => checkRefs args r
         | _ => Verdict.skip s!"unknown family {fam}"
       (idx, fam, v)
     | _ => ("?", "?", .skip "short line")
